@@ -283,15 +283,15 @@ type Obligation struct {
 	goal   Term // reach ∧ ¬prop ; unsat ⇒ discharged
 	Inputs []InputSym
 	// results
-	Status     string // unsat | sat | unknown
-	Solver     string
-	Ms         int64
-	Model      map[string]string
-	Output     string
-	Vacuity    bool   // a reachability (cover) query: expected sat
-	KnownClass string // non-empty: the input class of a recorded known finding (expected sat)
-	KnownWhat  string
-	Candidate  bool // model found only after dropping quantified assumptions
+	Status      string // unsat | sat | unknown
+	Solver      string
+	Ms          int64
+	Model       map[string]string
+	Output      string
+	Vacuity     bool   // a reachability (cover) query: expected sat
+	KnownClass  string // non-empty: the input class of a recorded known finding (expected sat)
+	KnownWhat   string
+	Candidate   bool // model found only after dropping quantified assumptions
 	ReturnCover bool // reachability of one return site (a declared number may be dead code)
 }
 
